@@ -85,9 +85,13 @@ def execute(spec):
 
         from sklearn.linear_model import LinearRegression
 
-        c = Card(LinearRegression(), **spec[1])
-        for name, args, kw in spec[2]:
-            getattr(c, name)(*args, **kw)
+        try:
+            c = Card(LinearRegression(), **spec[1])
+            for name, args, kw in spec[2]:
+                getattr(c, name)(*args, **kw)
+            c.render()
+        except Exception as ex:
+            return ("raised", type(ex).__name__)
         # scikit-learn numbers the elements of its HTML diagram with a process-wide counter: ids, not content
         text = re.sub(r"sk-(estimator|container)-id-\d+", r"sk-\1-id-N", c.render())
         return ("card-real", text, list(c._metrics.items()) if hasattr(c, "_metrics") else None)
